@@ -5,7 +5,7 @@ CONSTANTS
   MaxW = 4
   Unbounded = 1000
   Thresh = 3
-  CapMode = "prefix"
-  OnSignal = "return"
+  CapMode = "min"
+  OnSignal = "resume"
 CONSTRAINT Bound
-INVARIANTS NoOversleep
+INVARIANTS WakeNotSleptOn
